@@ -8,8 +8,18 @@ outside) and emits potential equalities, signed flow sums (inside +, outside -) 
 unconnected flows; vf.ref.linalg decides with exact rationals that both systems have the same row space,
 i.e. the same solutions.  The flat variables must be exactly the connector variables (no connector
 symbol survives, flow prefix kept).
+
+Array family: the same exploration over ELEMENTS of connector arrays -- a connector array declared inside a
+component (`Pin ports[3]` in a Tank: the subscript of t.ports[2] sits in the second index group of the flat
+reference), an array of top-level connectors (`Pin e[2]`, outside), arrays of components (`Comp b[2]`,
+`Tank tt[2]`: tt[2].ports[1] carries one subscript per group) next to scalar connectors.  vf.ref.flat has no
+arrays, so the reference for this family is built here: union-find over (element connector, inside/outside),
+potentials equal, signed flow sums, zero for the flows of every element in no connection; pymoca's flat
+equations are scalarised (x[k] -> one unknown per element, a whole-array equation `e.i = 0` -> one row per
+element) and compared by the same exact row-space equality.
 """
 import itertools
+import re
 
 from vf.core import common, flatobs
 from vf.ref import flat as F
@@ -66,11 +76,209 @@ ENDPOINTS = {
 }
 
 
+# ---------------------------------------------------------------------------------------------------------
+# Array family.  A shape = fixed declarations in Top, the connector instances they denote (flat base name ->
+# dimensions, one entry per connector whether or not it is an endpoint: every flow needs an equation), and
+# the endpoints connect clauses may name.  An endpoint referenced through a component is an inside connector,
+# an element of a top-level connector array an outside one.
+CONN_VARS = {"vi": (("v",), ("i",)), "vwij": (("v", "w"), ("i", "j"))}
+KNOWN_ARRAY_SIG = "unconnected-array-element-flow-not-zero"
+
+ARR = {
+    "arr": {
+        "decl": ["Comp c1", "Tank t", "Pin e[2]"],
+        "connectors": {"c1.p": (), "c1.p2": (), "t.ports": (3,), "t.top": (), "e": (2,)},
+        "endpoints": ["c1.p", "t.ports[1]", "t.ports[2]", "t.ports[3]", "t.top", "e[1]", "e[2]"],
+    },
+    # arrays of components: b[k].p keeps its subscript in the first index group, tt[k].ports[m] has one in each
+    "arr2": {
+        "decl": ["Comp b[2]", "Tank tt[2]", "Pin e[2]"],
+        "connectors": {"b.p": (2,), "b.p2": (2,), "tt.ports": (2, 3), "tt.top": (2,), "e": (2,)},
+        "endpoints": ["b[1].p", "b[2].p", "b[2].p2", "tt[1].ports[2]", "tt[2].ports[1]", "tt[2].ports[2]", "tt[2].top", "e[2]"],
+    },
+}
+ENDPOINTS.update({k: v["endpoints"] for k, v in ARR.items()})
+_SUB = re.compile(r"\[(\d+)\]")
+
+
+def arr_text(kind, shape, clauses):
+    pots, flows = CONN_VARS[kind]
+    pin = "".join("  Real %s;\n" % v for v in pots) + "".join("  flow Real %s;\n" % v for v in flows)
+    return (
+        "connector Pin\n%send Pin;\nmodel Comp\n  Pin p;\n  Pin p2;\nend Comp;\nmodel Tank\n  Pin ports[3];\n  Pin top;\nend Tank;\n"
+        "model Top\n%sequation\n%send Top;\n"
+        % (pin, "".join("  %s;\n" % d for d in ARR[shape]["decl"]), "".join("  connect(%s, %s);\n" % c for c in clauses))
+    )
+
+
+def elem(base, idx, var):
+    """Scalar unknown of variable `var` of the element `idx` of connector (array) `base`."""
+    return "%s.%s%s" % (base, var, "[%s]" % ",".join(map(str, idx)) if idx else "")
+
+
+def split_endpoint(ep):
+    """'tt[2].ports[1]' -> ('tt.ports', (2, 1), inside=True); 'e[1]' -> ('e', (1,), False)."""
+    base = _SUB.sub("", ep)
+    return base, tuple(int(k) for k in _SUB.findall(ep)), "." in base
+
+
+def arr_reference(kind, shape, clauses):
+    """(expected flat variables, connection-set rows, rows `flow = 0` of the never-connected elements of
+    connector arrays of which some other element is connected)."""
+    pots, flows = CONN_VARS[kind]
+    conns = ARR[shape]["connectors"]
+    evars = {}
+    for base, dims in conns.items():
+        for v in pots + flows:
+            evars[base + "." + v] = {"type": "Real", "prefixes": frozenset(["flow"] if v in flows else []), "dims": tuple(("num", float(d)) for d in dims), "attrs": {}}
+    parent = {}
+
+    def find(x):
+        parent.setdefault(x, x)
+        while parent[x] != x:
+            x = parent[x]
+        return x
+
+    for a, b in clauses:
+        ra, rb = find(split_endpoint(a)), find(split_endpoint(b))
+        if ra != rb:
+            parent[ra] = rb
+    sets = {}
+    for x in sorted(parent):
+        sets.setdefault(find(x), []).append(x)
+    rows = []
+    for members in sets.values():
+        b0, i0, _ = members[0]
+        for v in pots:
+            for b, i, _ in members[1:]:
+                rows.append({elem(b0, i0, v): 1, elem(b, i, v): -1})
+        for f in flows:
+            rows.append({elem(b, i, f): (1 if inside else -1) for b, i, inside in members})
+    partial = []
+    for base, dims in conns.items():
+        elems = list(itertools.product(*[range(1, d + 1) for d in dims]))
+        free = [i for i in elems if (base, i, "." in base) not in parent]
+        for i in free:
+            for f in flows:
+                rows.append({elem(base, i, f): 1})
+                if dims and len(free) < len(elems):
+                    partial.append({elem(base, i, f): 1})
+    return evars, rows, partial
+
+
+class IllShaped(Exception):
+    pass
+
+
+def scalarise(e, dims):
+    """The scalar equations an observed flat equation stands for.  dims: flat name -> tuple of ints.  A reference
+    x[k, ...] with literal subscripts (one per dimension, in range) is the unknown 'x[k,...]'; an equation over
+    whole arrays of one shape (and literals) holds element-wise."""
+    whole = set()
+
+    def walk(n):
+        if isinstance(n, tuple):
+            if n and n[0] == "idx":
+                name, subs = n[1], n[2]
+                d = dims.get(name)
+                if d is None:
+                    raise IllShaped("%r is not a flat variable" % (name,))
+                ks = []
+                for s_ in subs:
+                    if not (isinstance(s_, tuple) and s_[0] == "num" and float(s_[1]) == int(s_[1])):
+                        raise IllShaped("subscript %r of %s is not an integer literal" % (s_, name))
+                    ks.append(int(s_[1]))
+                if len(ks) != len(d) or any(not 1 <= k <= m for k, m in zip(ks, d)):
+                    raise IllShaped("%s%r does not denote an element of %s%r" % (name, ks, name, list(d)))
+                return ("var", "%s[%s]" % (name, ",".join(map(str, ks))))
+            if n and n[0] == "var":
+                if n[1] not in dims:
+                    raise IllShaped("%r is not a flat variable" % (n[1],))
+                if dims[n[1]]:
+                    whole.add(n[1])
+                return n
+            return tuple(walk(x) for x in n)
+        return n
+
+    e = walk(e)
+    if not whole:
+        return [e]
+    shapes = {dims[w] for w in whole}
+
+    def scalars(n):
+        if isinstance(n, tuple):
+            if n and n[0] == "var":
+                return [] if n[1] in whole else [n[1]]
+            return [y for x in n for y in scalars(x)]
+        return []
+
+    if len(shapes) != 1 or scalars(e):
+        raise IllShaped("arrays %s and scalars %s in one equation" % (sorted((w, dims[w]) for w in whole), sorted(set(scalars(e)))))
+
+    def at(n, idx):
+        if isinstance(n, tuple):
+            if n and n[0] == "var" and n[1] in whole:
+                return ("var", "%s[%s]" % (n[1], ",".join(map(str, idx))))
+            return tuple(at(x, idx) for x in n)
+        return n
+
+    (shp,) = shapes
+    return [at(e, idx) for idx in itertools.product(*[range(1, d + 1) for d in shp])]
+
+
+def check_arr(job):
+    kind, shape, seq = job
+    text = arr_text(kind, shape, seq)
+    case = {"kind": kind, "shape": shape, "clauses": [list(c) for c in seq], "text": text}
+    evars, ref, partial = arr_reference(kind, shape, seq)
+    try:
+        obs = flatobs.observe(text, "Top")
+    except Exception as e:
+        return [("flatten-raises:" + common.exc_sig(e), "flatten raises %r\n%s" % (e, text), case)]
+    viol = []
+    for clause, detail in flatobs.compare({"vars": evars, "eqs": [], "ieqs": []}, obs, connectors=True):
+        viol.append((clause, "%s\n%s" % (detail, text), case))
+    dims = {}
+    for name, v in obs["vars"].items():
+        if not all(isinstance(d, tuple) and d[0] == "num" for d in v["dims"]):
+            return viol + [("dimensions", "%s: dimensions %r are not literals\n%s" % (name, v["dims"], text), case)]
+        dims[name] = tuple(int(d[1]) for d in v["dims"])
+    rows = []
+    try:
+        for e in obs["eqs"]:
+            if e[0] != "eq":
+                raise P.NotLinear(repr(e))
+            for se in scalarise(e, dims):
+                rows.append(P.eq_row(se))
+    except IllShaped as e:
+        viol.append(("ill-shaped-connection-equation", "flat equation: %s\n%s" % (e, text), case))
+        return viol
+    except P.NotLinear as e:
+        viol.append(("non-linear-connection-equation", "flat equation %s is not a linear connection equation\n%s" % (e, text), case))
+        return viol
+    if any(1 in r for r in rows):
+        viol.append(("inhomogeneous-connection-equation", "a connection equation has a constant term: %r\n%s" % (rows, text), case))
+    if not L.same_row_space(rows, ref):
+        ra, rb = L.rank(rows), L.rank(ref)
+        # The one known situation: the only thing wrong is that never-connected elements of a partially
+        # connected connector array have no `flow = 0` equation.  Anything else keeps the general signature.
+        lacking = [r for r in partial if L.rank(rows + [r]) > ra]
+        if lacking and L.same_row_space(rows + lacking, ref):
+            viol.append((KNOWN_ARRAY_SIG, "no equation `= 0` for the unconnected flow element(s) %s of a connector array with other elements connected (all other connection equations are right)\npymoca: %s\n%s" % (", ".join(sorted(next(iter(r)) for r in lacking)), _fmt(rows), text), case))
+            return viol
+        both = L.rank(rows + ref)
+        kind_ = "equation-not-implied" if both > rb else "equation-missing"
+        viol.append((kind_ + ":" + shape_of(seq), "flat equations (rank %d) and connection-set equations (rank %d) differ (joint rank %d)\npymoca: %s\nreference: %s\n%s" % (ra, rb, both, _fmt(rows), _fmt(ref), text), case))
+    return viol
+
+
 def jobs(tier):
     out = []
     plan = [("vi", "flat2", 3), ("vwij", "flat2", 2), ("vii-param", "flat2", 1), ("vi", "nested", 2), ("vi", "twoclass", 2)]
     if tier == "thorough":
         plan = [("vi", "flat2", 4), ("vi", "flat3", 3), ("vwij", "flat2w", 3), ("vii-param", "flat2", 2), ("vi", "nested", 3), ("vwij", "nested", 2), ("vi", "twoclass", 3)]
+    # array family (see ARR): elements of connector arrays as endpoints
+    plan += [("vi", "arr", 2), ("vi", "arr2", 1)] if tier != "thorough" else [("vi", "arr", 3), ("vwij", "arr", 2), ("vi", "arr2", 2)]
     for kind, shape, n in plan:
         eps = ENDPOINTS[shape]
         pairs = [(a, b) for a in eps for b in eps if a != b]
@@ -113,6 +321,8 @@ def shape_of(seq):
 
 def check(job):
     kind, shape, seq = job
+    if shape in ARR:
+        return check_arr(job)
     bshape = "flat2" if shape == "flat2w" else shape
     lib, target = build(kind, bshape, seq)
     text = lib.text()
